@@ -512,6 +512,18 @@ def arch_hostile_h(ctx, families=None, mean_units=None):
     return MolAst([s], arch="hostile_h")
 
 
+def arch_stopper(ctx, families=None, mean_units=None):
+    """(14) a one-descriptor "chain stopper" among the repeat units: growth can run out of open descriptors before the target is reached"""
+    r = ctx.rng
+    u = ctx.unit([ctx.lt(), ctx.gt()])
+    stop = [ctx.end(ctx.lt(weight=r.choice([None, 2.0, 0.5])), multi=r.random() < 0.5)]
+    if r.random() < 0.5:
+        stop.append(ctx.end(ctx.gt(weight=r.choice([None, 0.3])), multi=False))
+    ends = [ctx.end(ctx.lt(weight=ctx.weight())), ctx.end(ctx.gt(weight=ctx.weight()))]
+    s = StochAst(D(""), D(""), [u] + stop, ends, _dist_for(ctx, [u], mean_units or r.choice([1.5, 3]), families=families))
+    return MolAst([s], arch="stopper")
+
+
 def arch_deadend(ctx, families=None, mean_units=None):
     """valid notation whose generation dead-ends for some random streams: a low-weight side descriptor that only an end group matches and that
     carries no transition list -- when growth happens to pick it, no repeat unit fits and generation raises; other streams complete"""
@@ -568,6 +580,7 @@ ARCHETYPES = {
     "lists": arch_lists,
     "comb": arch_comb,
     "sidecap": arch_sidecap,
+    "stopper": arch_stopper,
 }
 
 
